@@ -14,7 +14,7 @@ from harness import lib, nodes
 from harness.lib import cb, cl, cn, cz, copt
 
 PROP = "C05"
-IMPORTS = "Base Cache CacheKeys"
+IMPORTS = "Base Cache CacheKeys CacheWf"
 RULE = ("leaf: histories of 5-25 ops (assign incl. negative = failing and repeated values, run local, submit, ops while "
         "in flight, complete, clear failed) on a 2-input node, inputs partly missing at the start; comp: histories of 4-14 "
         "ops on a two-child macro incl. child additions (cache reset) and silent internal edits. Non-trivial: >=1 cache hit "
@@ -322,6 +322,7 @@ def wfd_trace(case, use_cache):
             c.use_cache = False
     tr = []
     hits = []
+    mview = []
     for op in case["ops"]:
         out = "done"
         if use_cache:
@@ -355,8 +356,11 @@ def wfd_trace(case, use_cache):
         # the property speaks of what is returned and left in the OUTPUTS: a connected input that a cached run did not
         # re-fetch may show another value than its twin's, which is not part of the claim
         tr.append([out, [[], [_slot(c.outputs.y.value) for c in kids], bool(wf.running), bool(wf.failed)]])
+        mview.append([out if isinstance(out, str) else out[0], [_slot(c.outputs.y.value) for c in kids],
+                      [bool(c.failed) for c in kids], bool(wf.failed)])
     if use_cache:
         case["_hits"] = hits
+    case["_wfview_" + ("c" if use_cache else "u")] = mview
     return tr
 
 
@@ -371,8 +375,18 @@ def run_impl(case):
 
 def model_view(case, obs):
     if case["fam"] == "wfd":
-        return [1 if h[4] else 0 for h in case.get("_hits", [])]
+        return [[1 if h[4] else 0 for h in case.get("_hits", [])], case.get("_wfview_c"), case.get("_wfview_u")]
     return [obs["cached"], obs["uncached"]]
+
+
+def _wop_coq(o):
+    if o[0] == "assign":
+        return f"WAssign {cn(o[1])} {cz(o[2])}"
+    if o[0] == "connect":
+        return f"WConnect {cn(o[1])} {cn(o[2])}"
+    if o[0] == "disconnect":
+        return f"WDisconnect {cn(o[1])}"
+    return {"run": "WRun", "clear": "WClear"}[o[0]]
 
 
 def _dict_coq(d):
@@ -385,8 +399,11 @@ def model_term(case):
     if case["fam"] == "wfd":
         if "_hits" not in case:
             return None
-        return "OL " + cl(f"obs_hit {cb(r)} {cb(f)} {_dict_coq(now)} " +
+        hits = "OL " + cl(f"obs_hit {cb(r)} {cb(f)} {_dict_coq(now)} " +
                           ("None" if c is None else f"(Some {_dict_coq(c)})") for r, f, now, c, _ in case["_hits"])
+        ks = cl(f"({cz(3 + 10 * i)}, {cz(v)})" for i, v in enumerate(case["init"]))
+        ops = cl(_wop_coq(o) for o in case["ops"])
+        return f"OL [{hits}; obs_wtrace true {ks} {ops}; obs_wtrace false {ks} {ops}]"
     if case["fam"] != "leaf":
         return None
     return f"OL [{leaf_term(case, True)}; {leaf_term(case, False)}]"
